@@ -1928,6 +1928,7 @@ func (db *DatabaseCollectionWithUser) getResyncedDocument(ctx context.Context, d
 			// Probably the validator rejected the doc
 			base.WarnfCtx(ctx, "Error calling sync() on doc %q: %v", base.UD(docid), err)
 			access = nil
+			roles = nil
 			channels = nil
 		}
 		if rev.ID != doc.GetRevTreeID() && !rev.Channels.Equals(channels) {
